@@ -27,7 +27,7 @@ GetFirstRange(header, maxlen) ==
   LET p == Find(header, BYTESEQ) IN
   IF p < 0 THEN [ok |-> FALSE]
   ELSE LET rs == From(header, p + 6)
-           first == SplitAll(rs, COMMA)[1]
+           first == Strip(SplitAll(rs, COMMA)[1])     \* .strip(): white space before the list's comma (fix d46004c)
            parts == SplitAll(first, HY) IN
     IF Len(parts) # 2 THEN [ok |-> FALSE]
     ELSE LET st == parts[1]  en == parts[2] IN
@@ -50,9 +50,13 @@ AllDigits(s) == s # <<>> /\ \A i \in 1..Len(s) : IsDigit(s[i])
 RECURSIVE DecVal(_, _)
 DecVal(s, acc) == IF s = <<>> THEN acc ELSE DecVal(Tail(s), acc * 10 + (Head(s) - 48))
 \* [g |-> in grammar, sat |-> satisfiable, first, last (inclusive)]
+\* the list rule of RFC 7230 section 7 lets optional white space (SP / HTAB) stand between an element and the comma after it
+RECURSIVE RStripOws(_)
+RStripOws(s) == IF s # <<>> /\ s[Len(s)] \in {32, 9} THEN RStripOws(SubSeq(s, 1, Len(s) - 1)) ELSE s
 RfcRange(header, L) ==
   IF ~StartsWith(header, BYTESEQ) THEN [g |-> FALSE]
-  ELSE LET first == SplitAll(From(header, 6), COMMA)[1]
+  ELSE LET els == SplitAll(From(header, 6), COMMA)
+           first == IF Len(els) > 1 THEN RStripOws(els[1]) ELSE els[1]
            i == IndexOf(first, HY) IN
     IF i < 0 THEN [g |-> FALSE]
     ELSE LET a == Slice(first, 0, i)  b == From(first, i + 1) IN
